@@ -104,3 +104,13 @@ CHECKS["C11"] = dict(
     parts=[P("checkpoints", "^TestC11Checkpoints$", shards=(4, 16))],
     floor=1000,
 )
+
+CHECKS["C09"] = dict(
+    level="exploration",
+    technique="differential monitor on the real HTTP handler: expected accept/reject computed from the chain generator's knobs; accepted submissions checked by independent SCT verification, an independent raw-ASN.1 precertificate defanger and the stored leaf/issuer objects; get-roots compared with the installed set after every reload incl. failing ones",
+    text="~1200 (thorough ~30000) generated chains (root accepted / unknown / accepted after a reload, 0-3 intermediates, chain order faults, NotAfter at both window boundaries +-1 s, EKU variants, final / precertificate / malformed poison, precertificate signing certificate, matching or wrong endpoint, malformed bodies) are posted to the real handler with a running sequencer. Rejections must be 4xx and leave no leaf and no issuer object; acceptances must return an SCT that verifies (certificate-transparency-go tls verifier) over the leaf the harness derives independently from the submitted chain (entry type, DER or defanged TBS built by a raw-ASN.1 defanger, issuer key hash of the true issuer also behind a signing certificate), the stored leaf must equal that derivation incl. pre_certificate and chain fingerprints, every chain certificate must be retrievable as an issuer, the checkpoint published at response time must cover the index, and resubmission returns the byte-identical response. get-roots is compared with the installed set after creation, reloads, an unparsable reload and reloads whose upload fails (applied or not) followed by a retry.",
+    note="Leaf without any EKU: recorded, not judged. Oversized bodies are not generated (the handler answers 500 for a body over 128 KiB; the statement is about chains). Trusted: crypto/x509 certificate creation, harness defanger and encoders, ct-go signature verification.",
+    design_ref="DESIGN.md section 3, C09",
+    parts=[P("chains", "^TestC09Chains$", shards=(8, 16))],
+    floor=300,
+)
